@@ -14,6 +14,15 @@ CHECKS = {
    note="trusted: python int/float arithmetic, glibc pow/fmod, gcc sanitizer runtimes; decimal zero divisors, sign of zero results and ** with "
         "negative integer exponent are only checked for totality (manual silent)",
    design="4/C03"),
+ "C04": dict(
+   technique="complete enumeration by execution against the Kleene tables (online monitor) + ASan/UBSan",
+   text="Every (operator, lhs, rhs) with operands drawn from {true,false,null} x 8 ways of producing them (constant, constructor, typed/untyped/"
+        "opaque variable, function result, table element, tuple item) is executed by the real interpreter in five forms (eval twice, a 3-iteration "
+        "loop with a loop-dependent sibling operand on either side, if and while condition), in a fresh context and in a shared long-lived context, "
+        "and compared with the Kleene tables; relational operators over five operand types with every kind of null must yield null. The finite "
+        "space is enumerated completely on every run.",
+   note="trusted: the 15-line Kleene model, the harness dump; truth values of relational operators on non-null operands are not asserted (outside the statement)",
+   design="4/C04"),
 }
 
 NOT_YET = "check not built yet in this round (see DESIGN.md section 4 for the planned runtime monitor)"
